@@ -13,6 +13,9 @@ Line protocol for the C09 model (`Model/FkmNonlinear.lean`) at `Float`.  Ops (al
   c09.consts group                    -> 30 × (hex | none)
   c09.life   d1 d2 PZ PD (P closed run)*   -> early idx x nSeq nCycles infinite | D…
   c09.lifeD  (D run)*                 -> early idx x nSeq nCycles
+  c09.lifeB  k n d1 d2 (PZ PD)*n (P closed run)*   -> the `c09.life` answer for point k of an n-point table
+                                         (rows hysteresis-major: one row per point for every hysteresis)
+  c09.gLnM   PA PL sL indep k n load…  -> hex | ValueError   (mesh, loads step-major; indep=1: node k, 0: whole mesh)
   c09.beta   PA                       -> hex   (−Φ⁻¹(PA), Φ by series / continued fraction + bisection)
   c09.getbeta PA                      -> hex | ValueError
   c09.gLn    PA PL sL load…           -> hex | ValueError
@@ -128,6 +131,20 @@ def handle : List String → Option String
     let rows ← parseRows rest
     let r := damagePRAM c rows
     some s!"{showLifeResult r} {if isLifeInfinite c rows then 1 else 0} | {joinFloats (rows.map (rowD c))}"
+  | "c09.lifeB" :: k :: n :: d1 :: d2 :: rest => do
+    let k ← k.toNat?
+    let n ← n.toNat?
+    let d1 ← parseFloat? d1
+    let d2 ← parseFloat? d2
+    let cs ← parseFloats (rest.take (2 * n))
+    let curves : List (PramCurve Float) := (List.range n).map fun i =>
+      { d1 := d1, d2 := d2, PZ := cs.getD (2 * i) 0.0, PD := cs.getD (2 * i + 1) 0.0 }
+    let rows ← parseRows (rest.drop (2 * n))
+    let res := damagePRAMBatch curves rows
+    let c ← curves[k]?
+    let r ← res[k]?
+    let mine := pointRows k (chunk n rows.length rows)
+    some s!"{showLifeResult r.1} {if r.2 then 1 else 0} | {joinFloats (mine.map (rowD c))}"
   | "c09.lifeD" :: rest => do
     let ds ← parseDs rest
     some (showLifeResult (lifetimeOfDamages ds))
@@ -138,6 +155,13 @@ def handle : List String → Option String
   | "c09.gLn" :: pa :: pl :: sl :: loads => do
     let loads ← parseFloats loads
     some (showOpt (gammaLNormal (← parseFloat? pa) (← parseFloat? pl) (← parseFloat? sl) (maxAbs loads)))
+  | "c09.gLnM" :: pa :: pl :: sl :: indep :: k :: n :: loads => do
+    let k ← k.toNat?
+    let n ← n.toNat?
+    let loads ← parseFloats loads
+    let cols : List (List Float) := (List.range n).map fun i => pointRows i (chunk n loads.length loads)
+    let lmax ← if indep = "1" then (maxAbsPerNode cols)[k]? else some (maxAbsMesh cols)
+    some (showOpt (gammaLNormal (← parseFloat? pa) (← parseFloat? pl) (← parseFloat? sl) lmax))
   | ["c09.gLl", pa, pl, lsd] => do
     some (showOpt (gammaLLognormal (← parseFloat? pa) (← parseFloat? pl) (← parseFloat? lsd)))
   | ["c09.gLb", pl] => do
